@@ -320,7 +320,10 @@ def d24β : Beh := fun hid _ => if hid = 1 then ⟨none, [(⟨0, .add 2 2 0 fals
 def d24ops : List SAct := [⟨0, .add 0 1 0 false none⟩, ⟨0, .raise 0 .inst true⟩]
 def cfg01 : Nat → List Nat × Bool × Bool := fun _ => ([0, 1], false, false)
 
-/-- **noerrors.** (`noErrAll`: the tree as committed, D24 repaired.)  The full statement holds for every history and behaviour. -/
+/-- **noerrors.** (`noErrAll`: the tree as committed, D24 repaired.)  The full statement holds for every history and behaviour,
+and for every exception value `k` a handler can raise — `Exc.base` included: `SystemExit`, `KeyboardInterrupt`, `GeneratorExit`
+and an application's own `BaseException` subclasses are suppressed like any other (the code's bare `except:`; literal reading of
+"never propagates a handler's exception"). -/
 theorem noerrors (β : Beh) (v : Variant) (hv : v.noErrAll = true) (cfg : Nat → List Nat × Bool × Bool)
     (ops : List SAct) (n : Nat) : noerrors_full β v cfg ops n := by
   intro f k h
